@@ -292,9 +292,14 @@ func checkC06(c *chk.Ctx) {
 			c.Violation(rp, fmt.Sprintf("%v: %s", e.Fv, derr))
 			continue
 		}
-		if len(docs) == 1 {
-			oc.doc, oc.docLine = docs[0], lines[0]
-		} else {
+		// the document of the service that has the RPC under test ("Do"): with several services in the file it
+		// need not be the first one written
+		for i, d := range docs {
+			if opSchema(d.tree, "Do", "request", "") != nil {
+				oc.doc, oc.docLine = d, lines[i]
+			}
+		}
+		if oc.doc == nil {
 			oc.skipped = "no document"
 		}
 		cases = append(cases, oc)
@@ -325,9 +330,9 @@ func checkC06(c *chk.Ctx) {
 	if err != nil {
 		c.Broken("driver does not build: %s", firstN(bout, 1500))
 	}
-	modes := []int{0, 1, 2}
+	modes := []int{0, 1, 2, jsonv.ModeSparse}
 	if c.Thorough() {
-		modes = []int{0, 1, 2, 3, 4, 5, 6, 7, 8}
+		modes = []int{0, 1, 2, 3, 4, 5, 6, 7, 8, jsonv.ModeSparse}
 	}
 	var ops []drv.Op
 	type vkey struct{ ci, mode int }
